@@ -120,6 +120,10 @@ class ValueFactory:
                  for kv in v["kvs"]}
             self.back[id(o)] = (o, v)
             return o
+        if t == "range":
+            return range(v["n"])
+        if t in ("letters", "roman"):
+            return _val_text(v, self, None)
         if t == "char":
             return STR_TAGS[v["s"]][v["n"] - 1]
         if t == "byte":
@@ -310,8 +314,9 @@ def concretize(p, perm=0, style=None):
                 stm.append(("condition", pre + "condition", [ex((i, "cond", 0), it["cond"])]))
             if it["rep"]["m"] != "no":
                 r = it["rep"]
+                nm = r["n"] if len(r["ns"]) == 1 else "(" + ", ".join(r["ns"]) + ")"
                 stm.append(("repeat", pre + "repeat",
-                            [("global " if r["g"] else "") + r["n"] + " ", ex((i, "rep", 0), r["e"])]))
+                            [("global " if r["g"] else "") + nm + " ", ex((i, "rep", 0), r["e"])]))
             if it["sub"]["m"] != "none":
                 sb = it["sub"]
                 stm.append((sb["m"], pre + sb["m"],
@@ -505,10 +510,12 @@ def _print_atoms(atoms, c, p, vf, objs=None):
             if it["tag"] == "ns":
                 continue
             tail = c.prev_text_tail.get(a["i"])
-            if tail is None or "\0" in tail.rsplit("\n", 1)[-1]:
-                segs.append(re.compile(r"\n *"))
+            last = None if tail is None else tail.rsplit("\n", 1)[-1]
+            if tail is None or "\n" not in tail or last.strip(" \t") != "":
+                # not "an ordinary element that starts on its own line": unconstrained
+                segs.append(re.compile(r"\s*"))
             else:
-                segs.append("\n" + " " * len(tail.rsplit("\n", 1)[-1]))
+                segs.append("\n" + last)
         else:
             raise ValueError(a)
     return segs
@@ -524,8 +531,12 @@ def _val_text(v, vf, objs):
                 t = _val_text(x, vf, objs)
                 out += "" if t is None else t
         return out
-    if v["t"] == "repvar":
-        return str(repvar_value(v))
+    if v["t"] == "letters":
+        base = ord("A") if v["up"] else ord("a")
+        return "".join(chr(base + d) for d in v["ds"])
+    if v["t"] == "roman":
+        s = "".join(v["ss"])
+        return s if v["up"] else s.lower()
     if v["t"] == "errfield":
         return ERRFIELD(v)
     obj = vf.make(v) if objs is None else objs(v)
